@@ -41,6 +41,19 @@ PROPS = {
                  "solvers; branch (copy-on-write), simplify, split, combine, merge", design_ref="DESIGN.md 5 C12"),
     "C14": _hist(3000, 80000, "trees of branched solvers of every exact frontend class, strictly interleaved ops, and "
                  "probe sweeps over the untouched handles after every mutating op", design_ref="DESIGN.md 5 C14"),
+    "C13": _hist(3000, 80000, "exact phase: SolverReplacement (default settings) and SolverHybrid (exact=None/True) against "
+                 "the exact oracle, with histories biased to constraints that create replacements, contradicting/refining "
+                 "adds, downsize, branch and pickling; approximate phase: SolverHybrid(exact=False / approximate_first), "
+                 "SolverVSA and the hybrid's internal SolverReplacement(SolverVSA) against the containment oracle",
+                 design_ref="DESIGN.md 5 C13",
+                 phases=[{"profile": "C13", "share": 0.6}, {"profile": "C13approx", "share": 0.4}]),
+    "C15": _hist(2500, 50000, "solvers built by random histories are branched, extended, then merged (flag conditions or "
+                 "random conditions, with and without a true common ancestor), combined and split; the result becomes a "
+                 "handle with the model set the specification prescribes (computed by enumeration) and the history "
+                 "continues on it; split parts are probed assignment by assignment", design_ref="DESIGN.md 5 C15"),
+    "C16": _hist(2500, 50000, "tracked Solver/SolverComposite/SolverHybrid driven to UNSAT through many add orders, "
+                 "unsat_core() at random points: element types, membership in the tracked set, unsatisfiability of the "
+                 "core (each element evaluated on all assignments)", design_ref="DESIGN.md 5 C16"),
 }
 for _p in PROPS.values():
     _p.setdefault("design_ref", "DESIGN.md 5")
@@ -127,6 +140,19 @@ def absorb(agg, res, hashseed):
                                "ops": res["record"]["ops"][:25], "digest": d})
 
 
+def merge_agg(a, b):
+    for k in ("runs", "ok", "violation", "excluded", "harness_error", "timeout", "crash"):
+        a[k] = a.get(k, 0) + b.get(k, 0)
+    a["digests"] |= b["digests"]
+    a["nontrivial_digests"] |= b["nontrivial_digests"]
+    for key in ("stats", "fault_kinds", "handles", "cov"):
+        for k, v in b[key].items():
+            a[key][k] = a[key].get(k, 0) + v
+    for key in ("violations", "samples", "errors", "excluded_samples", "group_failures"):
+        a[key] = a[key] + b[key]
+    return a
+
+
 def triage_remote(eng_name, prop, seed, opts, res, sig, hashseed, budget_s=90):
     req = {"mode": "triage", "engine": eng_name, "record": res["record"], "signature": sig, "workers": 16, "limit_s": 60,
            "budget_s": budget_s, "prefix": res.get("prefix") or [], "prop": prop, "seed": seed, "opts": opts or {}}
@@ -175,7 +201,7 @@ def handle_violations(prop, seed, opts, agg, max_groups=8, budget_s=60):
             rec = res["record"]
             hs = rec["config"].get("hashseed", 0)
             try:
-                m = triage_remote(eng_name, prop, seed, opts, res, sig, hs, budget_s)
+                m = triage_remote(eng_name, prop, seed, dict(opts or {}, **res.get("phase_opts", {})), res, sig, hs, budget_s)
             except GroupFailed as e:
                 vio_lines.append(("HARNESS-ERROR", f"triage failed: {e}"))
                 continue
@@ -247,7 +273,18 @@ def check_main(prop, tier, seed=None, runs=None, opts=None):
     if runs is None:
         runs = int(os.environ.get("VERIF_RUNS", P[tier]))
     print(f"SEED {seed} property={prop} tier={tier} runs={runs} repo={REPO} tree={repo_tree_digest()}", flush=True)
-    agg = run_batch(prop, tier, seed, runs, opts)
+    phases = P.get("phases")
+    if phases and not (opts and opts.get("profile")):
+        agg = None
+        for ph in phases:
+            n = max(1, int(runs * ph["share"]))
+            a = run_batch(prop, tier, seed, n, dict(opts or {}, profile=ph["profile"]))
+            for v in a["violations"]:
+                v["phase_opts"] = {"profile": ph["profile"]}
+            agg = a if agg is None else merge_agg(agg, a)
+        runs = agg["runs_expected"] = sum(max(1, int(runs * ph["share"])) for ph in phases)
+    else:
+        agg = run_batch(prop, tier, seed, runs, opts)
     wall = time.monotonic() - t0
     known_lines, vio_lines = [], []
     if agg["violations"]:
